@@ -109,7 +109,7 @@ def sig(meta, v, tr):
 
 def run(ctx: Ctx):
     ctx.model_check("IncomingMC", "MC_Incoming", invariants=("ExactlyOneOrNone", "DstKind", "JoinTriage"), coverage=False, workers=4)
-    n = 120 if ctx.quick else 1500
+    n = 120 if ctx.quick else 12000
     res = pmap(_rv, [(v, n, ctx.seed) for v in range(4, 15)], procs=11, chunksize=1)
     traces, metas = [], []
     for ver, evs in zip(range(4, 15), res):
